@@ -155,7 +155,8 @@ def _postProcessExcludePhases(therm: GeneralThermodynamics, mobility: np.array, 
     excluded_phases = args[0]
     #Entries of phaseFracs correspond to the phases stable at this point, not to therm.phases
     phases = list(kwargs.get('phases', therm.phases))
-    phase_idxs = [phases.index(p) for p in excluded_phases if p in phases]
+    #A phase can be stable as more than one composition set (miscibility gap), exclude all of them
+    phase_idxs = [i for i in range(len(phases)) if phases[i] in excluded_phases]
     for p in phase_idxs:
         phaseFracs[p] = 0
     return mobility, phaseFracs
